@@ -49,6 +49,8 @@ pub enum Mode {
     Nodes,
     /// additionally every reported path must be the normalized path of its node
     NodesAndPaths,
+    /// compare the nodes as a multiset only (C01: which nodes, how often - not in which order)
+    Multiset,
 }
 
 fn has_desc(q: &Query) -> bool {
@@ -60,7 +62,7 @@ pub fn case_json(q: &str, doc: &Value, class: &str) -> Value {
 }
 
 fn case_json_m(q: &str, doc: &Value, class: &str, mode: Mode) -> Value {
-    json!({"kind": "query", "query": q, "doc": doc, "class": class, "paths": mode == Mode::NodesAndPaths})
+    json!({"kind": "query", "query": q, "doc": doc, "class": class, "paths": mode == Mode::NodesAndPaths, "multiset": mode == Mode::Multiset})
 }
 
 /// evaluate `q` (already known to be a valid RFC 9535 query, `ast` its model AST) on `dc.doc` and compare
@@ -89,7 +91,7 @@ pub fn check_obs(run: &Run, acc: &mut Acc, q: &str, ast: &Query, dc: &DocCtx, ou
         acc.viol(format!("{} on {}: a returned value is not a node of the document", q, dc.doc), case_json(q, dc.doc, class));
         return Outcome::Violation;
     }
-    let unordered = has_desc(ast);
+    let unordered = has_desc(ast) || mode == Mode::Multiset;
     let key = |mut v: Vec<u32>| {
         if unordered {
             v.sort();
@@ -158,7 +160,13 @@ pub fn replay_query(case: &Value, run: &Run) -> Acc {
             if let Some(ids) = dc.model_ids(&ast, EDev::default()) {
                 println!("model    : {}", dc.fmt(&ids));
             }
-            let mode = if case["paths"].as_bool().unwrap_or(false) { Mode::NodesAndPaths } else { Mode::Nodes };
+            let mode = if case["paths"].as_bool().unwrap_or(false) {
+                Mode::NodesAndPaths
+            } else if case["multiset"].as_bool().unwrap_or(false) {
+                Mode::Multiset
+            } else {
+                Mode::Nodes
+            };
             check_case(run, &mut acc, q, &ast, &dc, mode, case["class"].as_str().unwrap_or("-"));
         }
         Err(e) => println!("model    : not a valid RFC 9535 query ({:?})", e),
